@@ -1,0 +1,32 @@
+//go:build verif
+
+// Contracts for package nistkdf, checked by /verif/govc (see /verif/DESIGN.md).
+// Comment-only file: it adds nothing to any build.
+package nistkdf
+
+// NIST SP 800-108 counter mode with FDO's parameters (C14):
+//   K(i) = PRF(K_IN, [i]_8 || "FIDO-KDF" || 0x00 || "AutomaticOnboardTunnel" || ContextRand || [L]_16)
+//   K_OUT = leftmost L bits of K(1) || ... || K(n)
+//@ func internal/nistkdf.KDF
+//@   props C14 C10(sweep)
+//@   sweep bounds,panic,make,nilmem
+//@   requires @hash hsz(u(hash)) == 32 || hsz(u(hash)) == 48
+//@   requires @bits bits <= 8160 && len(contextRand) <= 65535
+//@   invariant loop#1: len(result) == int(i) * int(h) && int(n) <= 255 && (int(h) == 32 || int(h) == 48) && int(n) * int(h) >= int(bits)
+//@   invariant loop#1: SumLen(u(digest)) == int(h) && digest != nil
+//@   invariant loop#1: len(input) == 34 + len(contextRand)
+//@   invariant loop#1: forall k in 0..8: input[1+k] == "FIDO-KDF"[k]
+//@   invariant loop#1: input[9] == 0
+//@   invariant loop#1: forall k in 0..22: input[10+k] == "AutomaticOnboardTunnel"[k]
+//@   invariant loop#1: forall k in 0..len(contextRand): input[32+k] == contextRand[k]
+//@   invariant loop#1: input[len(input)-2] == byte(bits>>8) && input[len(input)-1] == byte(bits)
+//@   ensures @len len(result) == int(bits/8)
+//@   callassert New#1: @key bytes(arg1) == bytes(shSe)
+//@   callassert Write#1: @counter input[0] == i+1
+//@   callassert Write#1: @label forall k in 0..8: input[1+k] == "FIDO-KDF"[k]
+//@   callassert Write#1: @sep input[9] == 0
+//@   callassert Write#1: @context forall k in 0..22: input[10+k] == "AutomaticOnboardTunnel"[k]
+//@   callassert Write#1: @contextrand forall k in 0..len(contextRand): input[32+k] == contextRand[k]
+//@   callassert Write#1: @L len(input) == 34 + len(contextRand) && input[len(input)-2] == byte(bits>>8) && input[len(input)-1] == byte(bits)
+//@   callassert Write#1: @whole u(arg1) == u(input)
+//@   callassert Sum#1: @block absorbed(digest) == happ(hinit(hashkind(digest)), bytes(input))
